@@ -4,7 +4,7 @@ import itertools
 from .. import shapes as S
 from ..core import Case
 from .common import place, CTX
-from .c02 import assignments
+from .c02 import assignments, assignments_k, WIDE
 
 IGN = ['{T}(ignore)', '{T} = false', '{T}(ignore = true)', '{T}(ignore(true))']
 NOTIGN = [None, '{T} = true', '{T}(ignore = false)']
@@ -22,7 +22,7 @@ def meta(ch, carrier, salt, method):
     return '%s(method(%s))' % (carrier, method) if salt % 2 else '%s(method = "%s")' % (carrier, method)
 
 
-def build(shape, assign, cfg, ctx='alone'):
+def build(shape, assign, cfg, ctx='alone', small_domain=False):
     """cfg: 'H' Hash only; 'HP' Hash + PartialEq with the same ignore/method choices"""
     tys, fattrs, doms = [], [], []
     salt = 0
@@ -39,7 +39,7 @@ def build(shape, assign, cfg, ctx='alone'):
                 if pe:
                     lines = lines + ['#[educe(%s)]' % pe] if salt % 2 else ['#[educe(%s)]' % pe] + lines
             a.append(lines)
-            d.append(['I(0)', 'I(1)'] if ch in 'ix' else ['V(0)', 'V(1)', 'V(2)'])
+            d.append(['I(0)', 'I(1)'] if ch in 'ix' else (['V(0)', 'V(1)'] if small_domain else ['V(0)', 'V(1)', 'V(2)']))
         tys.append(t)
         fattrs.append(a)
         doms.append(d)
@@ -84,6 +84,9 @@ def generate(tier):
         for assign in assignments(sh, 'cimx' if sum(f.n for f in sh.variants) <= 2 else 'cim'):
             for cfg in ('H', 'HP'):
                 cases.append(build(sh, assign, cfg))
+    for sh in WIDE:
+        for assign in assignments_k(sh, 'cimx', 2 if tier == 'quick' else 3):
+            cases.append(build(sh, assign, 'HP' if len(assign) % 2 else 'H', small_domain=True))
     for sh in S.struct_shapes(2) + S.enum_shapes(2, 1) + [S.Shape('enum', [S.Fields('t', 2), S.Fields('n', 2)]),
                                                           S.Shape('enum', [S.Fields('u'), S.Fields('t', 2)])]:
         if not sh.positions():
@@ -99,7 +102,7 @@ def generate(tier):
     return out
 
 
-RULE = ('every struct/enum shape within the bound x every assignment of {hashed, ignored (type whose Hash panics), method} '
+RULE = ('wide shapes (5-6 fields, 5-6 variants) with at most 2 (thorough 3) deviating positions; every struct/enum shape within the bound x every assignment of {hashed, ignored (type whose Hash panics), method} '
         'per field x {Hash alone, Hash + PartialEq with the same choices} x attribute contexts; per program every value over '
         '{0,1,2} through a recording Hasher: the fed data must end with the modelled field data in declaration order, the '
         'data fed before it must be constant per variant, and for all ordered pairs the traces are equal iff variant and '
